@@ -36,7 +36,9 @@ EXPLANATION = (
     'every data type of every namespace; tsd_types visits data types and aliases '
     '(get_data_types_for_namespace) and skips a namespace only when that list is empty; '
     'tsd_client emits one method per route of every namespace. Decides these structural parts.'
-    " R5 (generator totality, stonelint.totality): every read of a class-specific IR attribute in the six modules is defined for every class that can reach it, every raise/assert is an unreachable dispatch default, a doc-tag default covering the frontend's tags, a configuration condition or a recorded precondition, and class-keyed table lookups are total.")
+    " R5 (generator totality, stonelint.totality): every read of a class-specific IR attribute in the six modules is defined for every class that can reach it, every raise/assert is an unreachable dispatch default, a doc-tag default covering the frontend's tags, a configuration condition or a recorded precondition, and class-keyed table lookups are total."
+    ' RC (call-condition drift, stonelint.conddrift.run_calls): for every call of a repository or imported-library function in the functions the property is anchored in, the path conditions of its occurrences are compared with reference/conditions.json by truth table; an assignment under which the function used to make the call and now completes without it is a violation (tests on memo tables, emptiness of the iterated collection and earlier refusals excepted; re-spelled conditions are not claimed).'
+    ' MK (memo-key rule, stonelint.memo): a memo table or done-set the reference tree does not have must be keyed by every access path the skipped code reads, injectively and type-aware.')
 ASSUMPTIONS = ['repr() of a str and json.dumps of a number/bool/null are valid JavaScript literals']
 PRIMS = {'Boolean', 'Bytes', 'Float32', 'Float64', 'Int32', 'Int64', 'UInt32', 'UInt64', 'String',
          'Timestamp', 'Void'}
@@ -341,12 +343,32 @@ def run(pm, ctx):
     # one notion of "this namespace declares something" across the TypeScript backends: the client
     # imports exactly the namespaces for which tsd_types emits a module
     n_tests = 0
-    for mod in (TT.rsplit('.', 1)[0], TC.rsplit('.', 1)[0]):
+    from ..pathcond import decompose
+
+    def emptiness_operands(f):
+        """Operands whose emptiness a test of f decides on: len(X) in a comparison, or X / not X
+        as an atom of an if / conditional expression / comprehension filter / while."""
+        out = []
+        for n in own_nodes(f.node, include_nested=True):
+            if isinstance(n, ast.Call) and call_name(n) == 'len' and n.args and \
+                    isinstance(getattr(n, '_parent', None), ast.Compare):
+                out.append((n.args[0], n))
+            tests = []
+            if isinstance(n, (ast.If, ast.While, ast.IfExp)):
+                tests.append(n.test)
+            elif isinstance(n, ast.comprehension):
+                tests.extend(n.ifs)
+            for t in tests:
+                for e, _ in decompose(t, True):
+                    if isinstance(e, (ast.Attribute, ast.Call)) and not (
+                            isinstance(e, ast.Call) and call_name(e) in ('len', 'isinstance')):
+                        out.append((e, e))
+        return out
+    for mod in (TT.rsplit('.', 1)[0], TC.rsplit('.', 1)[0], TH):
         for f in pm.funcs_in(mod):
-            for n in own_nodes(f.node, include_nested=True):
-                if isinstance(n, ast.Call) and call_name(n) == 'len' and n.args and \
-                        isinstance(getattr(n, '_parent', None), ast.Compare):
-                    inner = n.args[0]
+            if f.parent is not None:
+                continue
+            for inner, n in emptiness_operands(f):
                     direct = any(isinstance(x, ast.Attribute) and x.attr in ('data_types', 'aliases')
                                  for x in ast.walk(inner))
                     via = isinstance(inner, ast.Call) and \
